@@ -17,10 +17,11 @@
                       WRemove       WMarkFailed
      retry poller     GetFailed ; (MarkPending ; enqueue)*                        Poll
      forced cleanup   ListCacheFiles ; per name: stat ; ring.Locations ; persist? ; manager.Find ;
-                      FStart           FPick            FOwn                        FFind
+                      FStart (+ first stat)             FOwn                        FFindNone | FFindSome
                       SyncExec(task)* (= the executor steps, retried in place) ; delete flag ; DeleteCacheFile
-                      XStat XRead XUpload XClear FSxFail                         FSxOk
-     cleanup pass     ListNames ; per name: stat, readyForDeletion, DeleteFile   ClStart ClFile ClDone
+                      XStat XRead XUpload XClear           FSxNext             FSxLast
+                      (every step that finishes a name goes on to stat the next listed name: FAdvance)
+     cleanup pass     ListNames ; per name: stat, readyForDeletion, DeleteFile   ClStart ClFile
      DELETE blob      DeleteCacheFile                                            DeleteBlob
      LRU eviction     fileMap.TryStore's deferred syncRemoveOldestIfNeeded       Evict
      transfer commit  internal upload (no write-back)                            Transfer
@@ -41,15 +42,15 @@
    backend is the instance with a single element in NS).  The unconfigured-namespace branch of the executor
    (task dropped) is outside the statement.  The backend never loses a blob.
 
-   Fix* constants.  FALSE models the code as built; TRUE models the candidate repairs (fixes/F31a.diff, F31b.diff):
-     FixStale   executor: a task whose cache file is missing FAILS (kept, retried) instead of being dropped --
-                as built the drop is followed by "clear the persist flag" and "remove the task row", which can
-                hit the flag and the (deduplicated) row of a NEWER commit of the same blob.
+   Fix* constants.  FALSE models the code as built; TRUE models the candidate repairs (fixes/F31a.diff, fixes/F31b.diff):
      FixLeak    forced cleanup: a flagged file without task row is NOT deleted (as built it is classified "leaked,
                 safe to delete" -- but a commit between setPersist and manager.Add looks exactly like that, goes
                 on, and is acknowledged if the file re-appears (second uploader, replication, refresh)).
-     FixShared  executor / forced cleanup clear the (single, per-file) persist flag only when no OTHER task row
-                exists for the file -- as built the first finished namespace clears the flag for all.        *)
+     FixShared  the persist flag is one per file but task rows are per (namespace, file): as built the first
+                namespace that finishes clears the flag for all.  Repair: executor and forced cleanup clear the
+                flag / delete the file only when no OTHER task row exists for the file, and writeBack sets the
+                flag once more after manager.Add (so that a clear that slipped in between setPersist and Add
+                -- when the row was not yet visible -- is undone).                                           *)
 EXTENDS Integers, FiniteSets, Sequences, TLC
 
 CONSTANTS D, NS,            \* digests, namespaces
@@ -57,7 +58,7 @@ CONSTANTS D, NS,            \* digests, namespaces
           MaxTries,         \* SyncExec attempts (SyncRetryBackoff.MaxRetries + 1)
           MaxStart, MaxFault, MaxRestart, MaxDel, MaxForce, MaxAux,   \* budgets of the environment (model checking only)
           Kinds,            \* subset of {"pub","dup"}: public commit / duplicate commit (delayed task)
-          FixStale, FixLeak, FixShared
+          FixLeak, FixShared
 
 VARIABLES cache, persist, meta, task, queue, bk, bup,
           hd, ex, fc, cl, acked, cacked,
@@ -74,7 +75,7 @@ X       == W \cup {"fc"}                   \* executor contexts: the workers and
 HIdle   == [pc |-> "idle", n |-> "-", d |-> "-", kind |-> "-", cf |-> FALSE]
 XIdle   == [pc |-> "idle", t |-> NoT]
 FIdle   == [pc |-> "idle", todo |-> {}, d |-> "-", ftodo |-> {}, done |-> {}, try |-> 0]
-CIdle   == [pc |-> "idle", todo |-> {}]
+CIdle   == [pc |-> "idle", d |-> "-", todo |-> {}]
 Stored(d) == {t \in T : t.d = d /\ task[t] # "none"}
 
 Init ==
@@ -145,17 +146,20 @@ HAddTask(h) ==
   /\ UNCHANGED <<dvars, bk, bup, ex, fc, cl, acked, cacked, cnt>>
 
 \* writeBack step 3: metainfo generation reads the cache file; then the conflict path answers 409, the duplicate
-\* commit answers 200, the public commit goes on to replicate (HAck)
-HGenMeta(h) ==
+\* commit answers 200, the public commit goes on to replicate (HAck).
+\* re = TRUE (candidate repair F31b only): the flag is set once more now that the task row exists.
+HGenMetaR(h, re) ==
   /\ hd[h].pc = "wb2"
   /\ LET t == [n |-> hd[h].n, d |-> hd[h].d] IN
      IF hd[h].d \notin cache
-     THEN /\ hd' = [hd EXCEPT ![h] = HIdle] /\ UNCHANGED <<meta, acked, cacked>>          \* 500
+     THEN /\ hd' = [hd EXCEPT ![h] = HIdle] /\ UNCHANGED <<meta, persist, acked, cacked>>          \* 500
      ELSE /\ meta' = meta \cup {hd[h].d}
+          /\ persist' = IF re THEN persist \cup {hd[h].d} ELSE persist
           /\ IF hd[h].cf THEN /\ cacked' = cacked \cup {t} /\ hd' = [hd EXCEPT ![h] = HIdle] /\ UNCHANGED acked
              ELSE IF hd[h].kind = "dup" THEN /\ acked' = acked \cup {t} /\ hd' = [hd EXCEPT ![h] = HIdle] /\ UNCHANGED cacked
              ELSE /\ hd' = [hd EXCEPT ![h].pc = "wb3"] /\ UNCHANGED <<acked, cacked>>
-  /\ UNCHANGED <<cache, persist, task, queue, bk, bup, ex, fc, cl, cnt>>
+  /\ UNCHANGED <<cache, task, queue, bk, bup, ex, fc, cl, cnt>>
+HGenMeta(h) == HGenMetaR(h, FixShared)
 
 HAck(h) ==                                \* replication to the other owners does not decide the reply: 200
   /\ hd[h].pc = "wb3"
@@ -165,6 +169,13 @@ HAck(h) ==                                \* replication to the other owners doe
 
 -----------------------------------------------------------------------------
 (* write-back executor (worker or SyncExec) *)
+
+\* the forced cleanup goes on with the next listed name (or answers): names that vanished meanwhile fail their stat
+\* and are skipped; the next existing name is stat'ed and the handler is parked in ring.Locations.  Uses cache'.
+FAdvance(rest) ==
+  IF rest \cap cache' = {} THEN fc' = FIdle
+  ELSE \E d2 \in rest \cap cache', S \in SUBSET (rest \ cache') :
+         fc' = [FIdle EXCEPT !.pc = "own", !.todo = rest \ (S \cup {d2}), !.d = d2]
 
 WTake(w, t) ==
   /\ w \in W /\ ex[w].pc = "idle" /\ t \in queue
@@ -179,7 +190,8 @@ XStat(x) ==
   /\ ex' = [ex EXCEPT ![x].pc = IF StatRes(ex[x].t) = "found" THEN "clear" ELSE "read"]
   /\ UNCHANGED <<dvars, task, queue, bk, bup, hd, fc, cl, acked, cacked, cnt>>
 
-\* GetCacheFileReader: a missing file drops the task (as built) / fails it (FixStale)
+\* GetCacheFileReader: a missing file drops the task ("Invariant violation: writeback cache file missing"):
+\* Exec returns nil after clearing the flag, the row is removed
 XReadOk(x) ==
   /\ ex[x].pc = "read" /\ ex[x].t.d \in cache
   /\ ex' = [ex EXCEPT ![x].pc = "upload"]
@@ -188,22 +200,32 @@ XReadMissingDrop(x) ==
   /\ ex[x].pc = "read" /\ ex[x].t.d \notin cache
   /\ ex' = [ex EXCEPT ![x].pc = "clear"]
   /\ UNCHANGED <<dvars, task, queue, bk, bup, hd, fc, cl, acked, cacked, cnt>>
-XReadMissingFail(x) ==
+XReadMissingFail(x) ==                    \* candidate repair F31b: the task fails (row kept, retried) instead of being dropped
   /\ ex[x].pc = "read" /\ ex[x].t.d \notin cache
-  /\ ex' = [ex EXCEPT ![x].pc = "fail"]
-  /\ UNCHANGED <<dvars, task, queue, bk, bup, hd, fc, cl, acked, cacked, cnt>>
-XRead(x) == XReadOk(x) \/ (IF FixStale THEN XReadMissingFail(x) ELSE XReadMissingDrop(x))
+  /\ UNCHANGED <<dvars, task, queue, bk, bup, hd, cl, acked, cacked, cnt>>
+  /\ IF x # "fc" THEN ex' = [ex EXCEPT ![x].pc = "fail"] /\ UNCHANGED fc
+     ELSE IF fc.try < MaxTries
+          THEN ex' = [ex EXCEPT ![x].pc = "stat"] /\ fc' = [fc EXCEPT !.try = @ + 1]
+          ELSE ex' = [ex EXCEPT ![x] = XIdle] /\ FAdvance(fc.todo)
+XRead(x) == XReadOk(x) \/ (IF FixShared THEN XReadMissingFail(x) ELSE XReadMissingDrop(x))
 
 \* client.Upload reads from the descriptor opened by XRead (survives a later deletion of the file).
 \* out: "ok", "err" (nothing stored), "lost" (stored, reply lost); "ok"/"lost" need the backend up.
+\* A failed Exec of a worker is followed by store.MarkFailed (WMarkFailed); inside SyncExec (x = "fc") backoff.Retry
+\* starts the next attempt in place or gives up on this name (nothing observable lies between the two).
 XUpload(x, out) ==
   /\ ex[x].pc = "upload" /\ out \in {"ok", "err", "lost"}
   /\ out # "err" => bup[ex[x].t.n]
   /\ (out = "lost" \/ (out = "err" /\ bup[ex[x].t.n])) => nfault < MaxFault
   /\ nfault' = IF out = "lost" \/ (out = "err" /\ bup[ex[x].t.n]) THEN nfault + 1 ELSE nfault
   /\ bk' = IF out = "err" THEN bk ELSE bk \cup {ex[x].t}
-  /\ ex' = [ex EXCEPT ![x].pc = IF out = "ok" THEN "clear" ELSE "fail"]
-  /\ UNCHANGED <<dvars, task, queue, bup, hd, fc, cl, acked, cacked, nstart, nrestart, ndel, nforce, naux>>
+  /\ UNCHANGED dvars
+  /\ IF out = "ok" THEN ex' = [ex EXCEPT ![x].pc = "clear"] /\ UNCHANGED fc
+     ELSE IF x # "fc" THEN ex' = [ex EXCEPT ![x].pc = "fail"] /\ UNCHANGED fc
+     ELSE IF fc.try < MaxTries
+          THEN ex' = [ex EXCEPT ![x].pc = "stat"] /\ fc' = [fc EXCEPT !.try = @ + 1]
+          ELSE ex' = [ex EXCEPT ![x] = XIdle] /\ FAdvance(fc.todo)
+  /\ UNCHANGED <<task, queue, bup, hd, cl, acked, cacked, nstart, nrestart, ndel, nforce, naux>>
 
 \* DeleteCacheFileMetadata(persist) (not-found tolerated)
 XClearAlways(x) ==
@@ -251,82 +273,68 @@ Evict(d) ==
   /\ IF d \in persist THEN UNCHANGED dvars ELSE Remove(d)
   /\ UNCHANGED <<task, queue, bk, bup, hd, ex, fc, cl, acked, cacked, nstart, nfault, nrestart, nforce, naux>>
 
-\* periodic cleanup pass (TTL / TTI / aggressive / policy based): all end in FileOp.DeleteFile
+\* periodic cleanup pass (TTL / TTI / aggressive): ListNames, then per name GetFileStat, readyForDeletion, DeleteFile
+ClAdvance(rest) ==
+  IF rest = {} THEN cl' = CIdle
+  ELSE \E d2 \in rest : cl' = [pc |-> "scan", d |-> d2, todo |-> rest \ {d2}]
 ClStart ==
   /\ cl.pc = "idle" /\ ndel < MaxDel /\ ndel' = ndel + 1
-  /\ cl' = [pc |-> "scan", todo |-> cache]
+  /\ ClAdvance(cache)
   /\ UNCHANGED <<dvars, task, queue, bk, bup, hd, ex, fc, acked, cacked, nstart, nfault, nrestart, nforce, naux>>
-ClFile(d, ready) ==                       \* ready = the file's age / rank qualifies it (environment)
-  /\ cl.pc = "scan" /\ d \in cl.todo
-  /\ cl' = [cl EXCEPT !.todo = @ \ {d}]
-  /\ IF ready /\ DelRes(d) = "ok" THEN Remove(d) ELSE UNCHANGED dvars
+ClFile(ready) ==                          \* ready = the file's age qualifies it (environment)
+  /\ cl.pc = "scan"
+  /\ IF ready /\ DelRes(cl.d) = "ok" THEN Remove(cl.d) ELSE UNCHANGED dvars
+  /\ ClAdvance(cl.todo)
   /\ UNCHANGED <<task, queue, bk, bup, hd, ex, fc, acked, cacked, cnt>>
-ClDone ==
-  /\ cl.pc = "scan" /\ cl.todo = {}
-  /\ cl' = CIdle
-  /\ UNCHANGED <<dvars, task, queue, bk, bup, hd, ex, fc, acked, cacked, cnt>>
 
-\* forced cleanup: POST /forcecleanup -> maybeDelete per listed name
+\* forced cleanup: POST /forcecleanup -> ListCacheFiles, maybeDelete per listed name
 FStart ==
   /\ fc.pc = "idle" /\ nforce < MaxForce /\ nforce' = nforce + 1
-  /\ fc' = [FIdle EXCEPT !.pc = "next", !.todo = cache]
-  /\ UNCHANGED <<dvars, task, queue, bk, bup, hd, ex, cl, acked, cacked, nstart, nfault, nrestart, ndel, naux>>
-FPick(d) ==                               \* GetCacheFileStat; then parked in ring.Locations
-  /\ fc.pc = "next" /\ d \in fc.todo
-  /\ fc' = [fc EXCEPT !.todo = @ \ {d}, !.pc = IF d \in cache THEN "own" ELSE "next", !.d = d, !.done = {}]
-  /\ UNCHANGED <<dvars, task, queue, bk, bup, hd, ex, cl, acked, cacked, cnt>>
+  /\ UNCHANGED dvars /\ FAdvance(cache)
+  /\ UNCHANGED <<task, queue, bk, bup, hd, ex, cl, acked, cacked, nstart, nfault, nrestart, ndel, naux>>
 \* cand = expired \/ ~owns.  Not a candidate: nothing.  Candidate without flag: DeleteCacheFile at once.
 \* Candidate with flag: parked in manager.Find.
 FOwn(cand) ==
   /\ fc.pc = "own"
   /\ IF ~cand \/ fc.d \notin cache
-     THEN fc' = [fc EXCEPT !.pc = "next"] /\ UNCHANGED dvars
+     THEN UNCHANGED dvars /\ FAdvance(fc.todo)
      ELSE IF fc.d \in persist
           THEN fc' = [fc EXCEPT !.pc = "find"] /\ UNCHANGED dvars
-          ELSE fc' = [fc EXCEPT !.pc = "next"] /\ Remove(fc.d)
+          ELSE Remove(fc.d) /\ FAdvance(fc.todo)
   /\ UNCHANGED <<task, queue, bk, bup, hd, ex, cl, acked, cacked, cnt>>
 \* the final two calls of maybeDelete: DeleteCacheFileMetadata(persist) ; DeleteCacheFile
-FinalDelete ==
-  IF fc.d \notin cache THEN UNCHANGED dvars       \* "delete persist: not found"
-  ELSE IF FixShared /\ Stored(fc.d) \ fc.done # {} THEN UNCHANGED dvars   \* a task row the cleanup did not execute
-  ELSE Remove(fc.d)
-\* Find(NameQuery): no row = "leaked file, safe to delete"; else SyncExec every row (first one t here)
+FinalDeleteAlways == IF fc.d \notin cache THEN UNCHANGED dvars ELSE Remove(fc.d)
+FinalDeleteGuarded ==                     \* candidate repair F31b: not while a task row exists that was not executed
+  IF fc.d \notin cache \/ Stored(fc.d) \ fc.done # {} THEN UNCHANGED dvars ELSE Remove(fc.d)
+FinalDelete == IF FixShared THEN FinalDeleteGuarded ELSE FinalDeleteAlways
+\* Find(NameQuery): no row = "leaked file, safe to delete" (as built) / refused (FixLeak)
 FFindNoneDelete ==
   /\ fc.pc = "find" /\ Stored(fc.d) = {}
-  /\ FinalDelete
-  /\ fc' = [fc EXCEPT !.pc = "next"]
+  /\ FinalDeleteAlways /\ FAdvance(fc.todo)
   /\ UNCHANGED <<task, queue, bk, bup, hd, ex, cl, acked, cacked, cnt>>
 FFindNoneRefuse ==
   /\ fc.pc = "find" /\ Stored(fc.d) = {}
-  /\ UNCHANGED dvars
-  /\ fc' = [fc EXCEPT !.pc = "next"]
+  /\ UNCHANGED dvars /\ FAdvance(fc.todo)
   /\ UNCHANGED <<task, queue, bk, bup, hd, ex, cl, acked, cacked, cnt>>
 FFindNone == IF FixLeak THEN FFindNoneRefuse ELSE FFindNoneDelete
+\* ... else SyncExec every row found (t first): parked in the executor's backend.Stat
 FFindSome(t) ==
   /\ fc.pc = "find" /\ t \in Stored(fc.d) /\ ex["fc"].pc = "idle"
   /\ fc' = [fc EXCEPT !.pc = "sx", !.ftodo = Stored(fc.d) \ {t}, !.try = 1, !.done = Stored(fc.d)]
   /\ ex' = [ex EXCEPT !["fc"] = [pc |-> "stat", t |-> t]]
   /\ UNCHANGED <<dvars, task, queue, bk, bup, hd, cl, acked, cacked, cnt>>
-FSxFail ==                                \* backoff.Retry: next attempt in place, or give up on this name
-  /\ fc.pc = "sx" /\ ex["fc"].pc = "fail"
-  /\ IF fc.try < MaxTries
-     THEN /\ fc' = [fc EXCEPT !.try = @ + 1] /\ ex' = [ex EXCEPT !["fc"].pc = "stat"]
-     ELSE /\ fc' = [fc EXCEPT !.pc = "next"] /\ ex' = [ex EXCEPT !["fc"] = XIdle]
+\* SyncExec returned nil (the task row is NOT removed): next row, or delete flag and file
+FSxNext(t) ==
+  /\ fc.pc = "sx" /\ ex["fc"].pc = "ok" /\ t \in fc.ftodo
+  /\ fc' = [fc EXCEPT !.ftodo = @ \ {t}, !.try = 1]
+  /\ ex' = [ex EXCEPT !["fc"] = [pc |-> "stat", t |-> t]]
   /\ UNCHANGED <<dvars, task, queue, bk, bup, hd, cl, acked, cacked, cnt>>
-FSxOk ==                                  \* SyncExec returned nil (the task row is NOT removed): next row, or delete
-  /\ fc.pc = "sx" /\ ex["fc"].pc = "ok"
-  /\ IF fc.ftodo # {}
-     THEN \E t \in fc.ftodo :
-            /\ fc' = [fc EXCEPT !.ftodo = @ \ {t}, !.try = 1]
-            /\ ex' = [ex EXCEPT !["fc"] = [pc |-> "stat", t |-> t]]
-            /\ UNCHANGED dvars
-     ELSE /\ FinalDelete
-          /\ fc' = [fc EXCEPT !.pc = "next"] /\ ex' = [ex EXCEPT !["fc"] = XIdle]
+FSxLastR(guarded) ==
+  /\ fc.pc = "sx" /\ ex["fc"].pc = "ok" /\ fc.ftodo = {}
+  /\ (IF guarded THEN FinalDeleteGuarded ELSE FinalDeleteAlways) /\ FAdvance(fc.todo)
+  /\ ex' = [ex EXCEPT !["fc"] = XIdle]
   /\ UNCHANGED <<task, queue, bk, bup, hd, cl, acked, cacked, cnt>>
-FDone ==
-  /\ fc.pc = "next" /\ fc.todo = {}
-  /\ fc' = FIdle
-  /\ UNCHANGED <<dvars, task, queue, bk, bup, hd, ex, cl, acked, cacked, cnt>>
+FSxLast == FSxLastR(FixShared)
 
 -----------------------------------------------------------------------------
 (* other ways into the cache, environment *)
@@ -365,10 +373,11 @@ Exec    == \/ \E w \in W, t \in T : WTake(w, t)
            \/ \E x \in X : XStat(x) \/ XRead(x) \/ XClear(x) \/ \E o \in {"ok", "err", "lost"} : XUpload(x, o)
            \/ \E w \in W : WRemove(w) \/ WMarkFailed(w)
            \/ \E S \in SUBSET T : Poll(S)
-Deleters == \/ \E d \in D : DeleteBlob(d) \/ Evict(d) \/ FPick(d) \/ \E r \in BOOLEAN : ClFile(d, r)
-            \/ ClStart \/ ClDone \/ FStart \/ FFindNone \/ FSxFail \/ FSxOk \/ FDone
+Deleters == \/ \E d \in D : DeleteBlob(d) \/ Evict(d)
+            \/ ClStart \/ \E r \in BOOLEAN : ClFile(r)
+            \/ FStart \/ FFindNone \/ FSxLast
             \/ \E c \in BOOLEAN : FOwn(c)
-            \/ \E t \in T : FFindSome(t)
+            \/ \E t \in T : FFindSome(t) \/ FSxNext(t)
 Env     == \/ \E d \in D : Transfer(d)
            \/ \E t \in T : Refresh(t)
            \/ \E n \in NS : BackendDown(n) \/ BackendUp(n)
